@@ -920,7 +920,7 @@ func (v *Validator) unsafeOptionalAccessError(env *requestEnv, t cedarType, attr
 		fullPath := string(attr)
 		if varName != "" && varName != "context" {
 			// nested path like context.session.token
-			fullPath = string(varName)[len("context."):] + "." + string(attr)
+			fullPath = strings.TrimPrefix(string(varName), "context.") + "." + string(attr)
 		}
 		return fmt.Errorf("unable to guarantee safety of access to optional attribute `%s` in context for %s", fullPath, env.actionUID)
 	}
